@@ -78,8 +78,10 @@ impl C {
 
 fn term(a: &A, vars: &[T]) -> T { match a { A::V(v) => vars[*v].clone(), A::K(k) => LTerm::from(*k) } }
 
-fn build(prog: &[C], vars: &[T], q: &T) -> Goal<U, E> {
-    let mut goals: Vec<Goal<U, E>> = vec![Eq::new::<Goal<U, E>>(q.clone(), LTerm::from_vec(vars.to_vec())).cast_into()];
+fn build(prog: &[C], vars: &[T], q: &T, compound: bool) -> Goal<U, E> {
+    // the query term: the list [x0, x1, x2], or [(x0, x1), x2] with a compound (tuple) term inside
+    let qterm: T = if compound { LTerm::from_vec(vec![Into::<T>::into((vars[0].clone(), vars[1].clone())), vars[2].clone()]) } else { LTerm::from_vec(vars.to_vec()) };
+    let mut goals: Vec<Goal<U, E>> = vec![Eq::new::<Goal<U, E>>(q.clone(), qterm).cast_into()];
     for c in prog {
         let g: Goal<U, E> = match c {
             C::Dom(v, d) => infd::<U, E, Goal<U, E>>(vars[*v].clone(), &d[..]).cast_into(),
@@ -99,10 +101,10 @@ fn build(prog: &[C], vars: &[T], q: &T) -> Goal<U, E> {
     Conj::from_vec(goals)
 }
 
-fn run_real(prog: &[C]) -> Vec<Vec<Option<isize>>> {
+fn run_real(prog: &[C], compound: bool) -> Vec<Vec<Option<isize>>> {
     let vars: Vec<T> = vec![LTerm::var("x0"), LTerm::var("x1"), LTerm::var("x2")];
     let q: T = LTerm::var("q");
-    let goal = build(prog, &vars, &q);
+    let goal = build(prog, &vars, &q, compound);
     let mut solver: Solver<U, E> = Solver::new((), false);
     let mut stream = solver.start(&goal, State::new(DefaultUser::new()));
     let mut out = vec![];
@@ -134,15 +136,18 @@ fn check(rep: &mut Report, prog: &[C]) {
     let neg = doms.iter().any(|d| d.iter().any(|x| *x < 0)) || prog.iter().any(|c| format!("{:?}", c).contains("K(-"));
     let class = if prog.iter().any(|c| matches!(c, C::Times(..))) && neg { "times-negative" } else if prog.iter().any(|c| matches!(c, C::Times(..))) { "times" } else if prog.iter().any(|c| c.class() == "alias") { "alias" } else { "plain" };
     let exp = solutions(prog, &doms);
+    for compound in [false, true] {
+    let inp = if compound { format!("{} [compound-query]", inp) } else { inp.clone() };
+    let class = if compound { "compound-query" } else { class };
     rep.case("fd-program", inp.clone());
     let p = prog.to_vec();
-    match guard_timeout(move || run_real(&p), 20) {
+    match guard_timeout(move || run_real(&p, compound), 20) {
         Err(e) if e == "TIMEOUT" => { rep.fail("sound", inp.clone(), "termination".into(), "no result within 20 s".into(), "diverges"); rep.print(); std::process::exit(0); }
         Err(e) => rep.fail("sound", inp.clone(), format!("{} solutions", exp.len()), e, "panic"),
         Ok(got) => {
             // soundness: each answer ground, within domains, satisfies all constraints
             for g in &got {
-                if g.iter().any(|x| x.is_none()) { rep.fail("sound", inp.clone(), "ground answers".into(), format!("{:?}", g), class); break; }
+                if g.iter().any(|x| x.is_none()) { rep.fail("complete", inp.clone(), "ground answers (every FD variable labeled)".into(), format!("{:?}", g), class); break; }
                 let asg: Vec<isize> = g.iter().map(|x| x.unwrap()).collect();
                 if !prog.iter().all(|k| k.holds(&asg)) { rep.fail("sound", inp.clone(), format!("an assignment satisfying every constraint; solutions are {:?}", exp), format!("{:?}", asg), class); break; }
             }
@@ -154,6 +159,7 @@ fn check(rep: &mut Report, prog: &[C]) {
             if gd.len() != gs.len() { rep.fail("complete", inp.clone(), "each solution once".into(), format!("{:?}", gs), class); }
             else if es.iter().any(|s| !gd.contains(s)) { rep.fail("complete", inp.clone(), format!("{:?}", es), format!("{:?}", gd), class); }
         }
+    }
     }
 }
 
@@ -210,6 +216,7 @@ pub fn search(tier: &str, seed: u64, only: Option<&str>) {
 pub fn replay(input: &str) {
     // input: "<check> <program text>" in the format printed by show()
     let body = input.splitn(2, ' ').nth(1).unwrap_or(input);
+    let body = body.trim_end_matches(" [compound-query]");
     let op = |s: &str| -> A { if let Some(r) = s.strip_prefix('x') { A::V(r.parse().unwrap()) } else { A::K(s.parse().unwrap()) } };
     let mut prog = vec![];
     for c in body.split(';') {
